@@ -967,6 +967,10 @@ where
 
         let (topic_name, consumed) = MqttString::decode(&data_arc[cursor..])?;
         cursor += consumed;
+        // Same rule as the builder: a Topic Name must not contain wildcard characters
+        if topic_name.as_str().contains('#') || topic_name.as_str().contains('+') {
+            return Err(MqttError::MalformedPacket);
+        }
 
         let qos = match qos_value {
             0 => Qos::AtMostOnce,
@@ -1001,6 +1005,13 @@ where
         } else {
             (VariableByteInteger::from_u32(0).unwrap(), Properties::new())
         };
+
+        // Same rule as the builder: an empty Topic Name is only valid together with a Topic Alias
+        if topic_name.as_str().is_empty()
+            && !props.iter().any(|p| matches!(p, Property::TopicAlias(_)))
+        {
+            return Err(MqttError::TopicAliasInvalid);
+        }
 
         let payload_len = data_arc.len() - cursor;
         let payload = if payload_len > 0 {
